@@ -216,15 +216,36 @@ Fixpoint hgated (f : list byte -> list byte -> bool) (credit : bool) (l : list c
   | _ :: t => hgated f credit t
   end.
 
+Lemma hgated_weaken f : forall l, hgated f false l = true -> hgated f true l = true.
+Proof.
+  induction l as [|x t IH]; intros G; [reflexivity|].
+  destruct x; cbn in *; auto. discriminate.
+Qed.
+
+(* handleRequest dials at most once, so one credit covers it *)
+Lemma handle_request_gated f cfg r : forall rest,
+  hgated f false rest = true ->
+  hgated f true (fst (c18_handle_request cfg r) ++ rest) = true.
+Proof.
+  intros rest G. unfold c18_handle_request.
+  repeat match goal with |- context [if ?x then _ else _] => destruct x end; cbn; auto using hgated_weaken.
+Qed.
+
 Lemma http_loop_gated cfg f tail : hc_auth cfg = Some f ->
   forall reqs, hgated f false (c18_http_loop cfg reqs tail) = true.
 Proof.
-  intros Hf. induction reqs as [|r t IH]; [reflexivity|].
-  cbn [c18_http_loop]. unfold c18_h_authev. rewrite Hf.
+  intros Hf. unfold c18_http_loop. induction reqs as [|r t IH]; [reflexivity|].
+  cbn [c18_http_loop_g]. unfold c18_http_one, c18_gate_all, c18_h_authev. rewrite Hf.
   destruct (c18_basic_creds (hr_pauth r)) as [[u p]|]; [|reflexivity].
   destruct (f u p) eqn:F; cbn [negb]; [|cbn; rewrite F; reflexivity].
-  destruct (hr_connect r), (hc_dial_ok cfg); cbn; rewrite F; cbn; auto.
-  destruct (hr_keepalive r); auto.
+  destruct (c18_is_connect r).
+  - unfold c18_handle_connect. destruct (hc_dial_ok cfg); cbn; rewrite F; reflexivity.
+  - destruct (c18_handle_request cfg r) as [ev ka] eqn:HR.
+    assert (K : forall rest, hgated f false rest = true -> hgated f true (ev ++ rest) = true).
+    { intros rest G. pose proof (handle_request_gated f cfg r rest G) as X. rewrite HR in X. exact X. }
+    destruct ka.
+    + rewrite app_nil_r. cbn [app hgated]. rewrite F. cbn [Bool.eqb andb]. apply K. exact IH.
+    + cbn [app hgated]. rewrite F. cbn [Bool.eqb andb]. apply K. reflexivity.
 Qed.
 
 Lemma hgated_sound f : forall l credit, hgated f credit l = true ->
@@ -276,7 +297,8 @@ Lemma http_reject : forall cfg f r t tail,
     (match c18_basic_creds (hr_pauth r) with Some (u, p) => [HAuth u p false] | None => [] end)
     ++ [HReply 407; HClose].
 Proof.
-  intros cfg f r t tail Hf Ha. cbn [c18_http_loop]. unfold c18_h_authev, c18_auth_ok in *. rewrite Hf.
+  intros cfg f r t tail Hf Ha. unfold c18_http_loop. cbn [c18_http_loop_g].
+  unfold c18_http_one, c18_gate_all, c18_h_authev, c18_auth_ok in *. rewrite Hf.
   destruct (c18_basic_creds (hr_pauth r)) as [[u p]|]; [rewrite Ha|]; reflexivity.
 Qed.
 
@@ -296,17 +318,18 @@ Proof.
 Qed.
 
 Lemma connect_pipelining : forall cfg r t h s,
-  hr_connect r = true -> hc_dial_ok cfg = true ->
+  c18_is_connect r = true -> hc_dial_ok cfg = true ->
   (match hc_auth cfg with Some f => c18_auth_ok f (hr_pauth r) = true | None => True end) ->
   (h <= length (concat s))%nat ->
   exists aev, c18_http cfg (r :: t) h s =
-              aev ++ [HTcp (hr_addr r); HReply 200; HRelay (skipn h (concat s)); HClose] /\
+              aev ++ [HTcp (c18_connect_addr r); HReply 200; HRelay (skipn h (concat s)); HClose] /\
               Forall (fun e => match e with HAuth _ _ true => True | _ => False end) aev.
 Proof.
   intros cfg r t h s Hc Hd Ha Hh. unfold c18_http.
   destruct (c18_bufio_split h s) as [[b rest]|] eqn:B.
   - apply bufio_split_spec in B. destruct B as [B _].
-    cbn [c18_http_loop]. unfold c18_h_authev, c18_auth_ok in *. rewrite Hc, Hd.
+    unfold c18_http_loop. cbn [c18_http_loop_g].
+    unfold c18_http_one, c18_gate_all, c18_handle_connect, c18_h_authev, c18_auth_ok in *. rewrite Hc, Hd.
     rewrite c18_copy_all_spec. unfold c18_pre_remaining. cbn [pr_buf pr_conn]. rewrite B.
     destruct (hc_auth cfg) as [f|].
     + destruct (c18_basic_creds (hr_pauth r)) as [[u p]|]; [|discriminate]. rewrite Ha. cbn [negb].
@@ -321,10 +344,16 @@ Qed.
 
 (* the body framing a CONNECT declares does not influence anything the proxy does *)
 Lemma connect_framing_irrelevant : forall cfg r fr t h s,
-  hr_connect r = true -> c18_http cfg (c18_set_framing fr r :: t) h s = c18_http cfg (r :: t) h s.
+  c18_is_connect r = true -> c18_http cfg (c18_set_framing fr r :: t) h s = c18_http cfg (r :: t) h s.
 Proof.
   intros cfg r fr t h s Hc. unfold c18_http. destruct (c18_bufio_split h s) as [[b rest]|]; [|reflexivity].
-  destruct r as [c a p k st f0]. cbn in Hc. subst c. reflexivity.
+  unfold c18_http_loop. cbn [c18_http_loop_g].
+  assert (E : c18_http_one c18_gate_all cfg (c18_set_framing fr r) (mkPre b rest) =
+              c18_http_one c18_gate_all cfg r (mkPre b rest)).
+  { destruct r as [m u fo sc uh ho p k st f0]. unfold c18_http_one, c18_set_framing, c18_is_connect in *.
+    cbn [hr_method hr_uri hr_form hr_scheme hr_uhost hr_host hr_pauth hr_keepalive hr_status hr_framing] in *.
+    rewrite Hc. reflexivity. }
+  rewrite E. reflexivity.
 Qed.
 
 Lemma script_discard_spec : forall s k, concat (c18_script_discard k s) = skipn k (concat s).
@@ -399,15 +428,129 @@ Proof. vm_compute. reflexivity. Qed.
 
 Definition ex_hcfg : c18_hcfg :=
   mkHCfg (Some (fun u p => match u, p with [x75], [x70] => true | _, _ => false end)) true.
-(* "bAsic dTpw" = u:p ; CONNECT with "xy" buffered and "z" still on the wire *)
+Definition ex_a1 : list byte := [x61; x3a; x31].                      (* "a:1" *)
+(* "bAsic dTpw" = u:p ; CONNECT a:1 with "xy" buffered and "z" still on the wire *)
 Example http_ex_accept :
-  c18_http ex_hcfg [mkHReq true [x61; x3a; x31] (Some [x62; x41; x73; x69; x63; x20; x64; x54; x70; x77]) false 200 (FrLen 2)]
+  c18_http ex_hcfg [mkHReq c18_s_connect ex_a1 FAuthority [] ex_a1 ex_a1
+                           (Some [x62; x41; x73; x69; x63; x20; x64; x54; x70; x77]) false 200 (FrLen 2)]
            3 [[x00; x00]; [x00; x78; x79]; [x7a]]
-  = [HAuth [x75] [x70] true; HTcp [x61; x3a; x31]; HReply 200; HRelay [x78; x79; x7a]; HClose].
+  = [HAuth [x75] [x70] true; HTcp ex_a1; HReply 200; HRelay [x78; x79; x7a]; HClose].
 Proof. vm_compute. reflexivity. Qed.
 
 Example http_ex_reject :
-  c18_http ex_hcfg [mkHReq true [x61; x3a; x31] (Some [x42; x61; x73; x69; x63; x20; x64; x54; x70; x78]) false 200 FrNone]
+  c18_http ex_hcfg [mkHReq c18_s_connect ex_a1 FAuthority [] ex_a1 ex_a1
+                           (Some [x42; x61; x73; x69; x63; x20; x64; x54; x70; x78]) false 200 FrNone]
            3 [[x00; x00; x00; x78]]
   = [HAuth [x75] [x71] false; HReply 407; HClose].
+Proof. vm_compute. reflexivity. Qed.
+
+(* ---------- the gate, request by request and for every request-target form ---------- *)
+Lemma handle_request_no_auth cfg r : forall u p ok, ~ In (HAuth u p ok) (fst (c18_handle_request cfg r)).
+Proof.
+  intros u p ok. unfold c18_handle_request.
+  repeat match goal with |- context [if ?x then _ else _] => destruct x end; cbn; intuition discriminate.
+Qed.
+
+(* one turn of dispatch's loop: an upstream dial while handling request r means that r itself carried
+   credentials, AuthFunc was called on exactly those, accepted them, and that call is the first thing
+   that happened for r - whatever r's method, request-target, form, scheme and hosts are *)
+Lemma http_one_gate : forall cfg f r tail a,
+  hc_auth cfg = Some f ->
+  In (HTcp a) (fst (c18_http_one c18_gate_all cfg r tail)) ->
+  exists u p ev, c18_basic_creds (hr_pauth r) = Some (u, p) /\ f u p = true /\
+                 fst (c18_http_one c18_gate_all cfg r tail) = HAuth u p true :: ev /\
+                 (forall u' p' ok', ~ In (HAuth u' p' ok') ev).
+Proof.
+  intros cfg f r tail a Hf. unfold c18_http_one, c18_gate_all, c18_h_authev. rewrite Hf.
+  destruct (c18_basic_creds (hr_pauth r)) as [[u p]|].
+  - destruct (f u p) eqn:F; cbn [negb].
+    + intros _. exists u, p.
+      destruct (c18_is_connect r).
+      * eexists. split; [reflexivity|]. split; [exact F|]. split; [reflexivity|].
+        intros u' p' ok'. unfold c18_handle_connect.
+        destruct (hc_dial_ok cfg); cbn; intuition discriminate.
+      * destruct (c18_handle_request cfg r) as [ev ka] eqn:HR. cbn [fst app].
+        eexists. split; [reflexivity|]. split; [exact F|]. split; [reflexivity|]. intros u' p' ok' I.
+        apply in_app_or in I. destruct I as [I|I].
+        -- apply (handle_request_no_auth cfg r u' p' ok'). rewrite HR. exact I.
+        -- destruct ka; cbn in I; intuition discriminate.
+    + cbn. intuition discriminate.
+  - cbn. intuition discriminate.
+Qed.
+
+(* on the whole connection: if anything is dialled while or after r is handled, r's credentials were accepted *)
+Lemma http_gate_every_form : forall cfg f method uri form scheme uhost host pauth ka st fr t tail a,
+  hc_auth cfg = Some f ->
+  In (HTcp a) (c18_http_loop cfg (mkHReq method uri form scheme uhost host pauth ka st fr :: t) tail) ->
+  c18_auth_ok f pauth = true.
+Proof.
+  intros cfg f method uri form scheme uhost host pauth ka st fr t tail a Hf.
+  unfold c18_http_loop. cbn [c18_http_loop_g]. unfold c18_http_one, c18_gate_all, c18_h_authev, c18_auth_ok.
+  rewrite Hf. cbn [hr_pauth].
+  destruct (c18_basic_creds pauth) as [[u p]|].
+  - destruct (f u p); [reflexivity|]. cbn. intuition discriminate.
+  - cbn. intuition discriminate.
+Qed.
+
+(* a plain (non-CONNECT) request without a scheme - origin-form, asterisk-form - never reaches an upstream,
+   credentials or not, gate or not: handleRequest answers 400 *)
+Lemma plain_no_scheme_no_dial : forall gated cfg r tail a,
+  c18_is_connect r = false -> hr_scheme r = [] ->
+  ~ In (HTcp a) (fst (c18_http_one gated cfg r tail)).
+Proof.
+  intros gated cfg r tail a Hc Hs. unfold c18_http_one, c18_h_authev.
+  assert (HR : c18_handle_request cfg r = ([HReply 400], false)).
+  { unfold c18_handle_request. rewrite Hs. reflexivity. }
+  rewrite Hc, HR.
+  destruct (gated r); [|cbn; intuition discriminate].
+  destruct (hc_auth cfg) as [f|]; [|cbn; intuition discriminate].
+  destruct (c18_basic_creds (hr_pauth r)) as [[u p]|]; [|cbn; intuition discriminate].
+  destruct (f u p); cbn; intuition discriminate.
+Qed.
+
+(* ... but a CONNECT is handed to handleConnect whatever its target looks like: with an empty URL.Host
+   (origin-form "CONNECT /x", empty target, "?q") it dials ":80" *)
+Lemma connect_hostless_dials : forall gated cfg r tail,
+  c18_is_connect r = true -> hr_uhost r = [] -> gated r = false ->
+  fst (c18_http_one gated cfg r tail) = c18_handle_connect cfg r tail /\
+  c18_connect_addr r = [x3a; x38; x30] /\
+  In (HTcp [x3a; x38; x30]) (fst (c18_http_one gated cfg r tail)).
+Proof.
+  intros gated cfg r tail Hc Hu Hg. unfold c18_http_one. rewrite Hg, Hc. cbn [negb app fst].
+  assert (A : c18_connect_addr r = [x3a; x38; x30]) by (unfold c18_connect_addr; rewrite Hu; reflexivity).
+  repeat split; auto. unfold c18_handle_connect. rewrite A. left. reflexivity.
+Qed.
+
+(* An exemption of "requests that are not proxy requests" keyed on the parsed target (URL.Host empty) placed
+   in front of the CONNECT branch is not harmless: a CONNECT in origin-form carries no credentials at all
+   and is dialled.  (gated = the exempting variant; the code as it is gates every request.) *)
+Definition c18_gate_hosted (r : c18_hreq) : bool := negb (c18_is_nil (hr_uhost r)).
+Definition ex_connect_origin : c18_hreq :=
+  mkHReq c18_s_connect [x2f; x78] FOrigin [] [] [] None false 200 FrNone.              (* CONNECT /x *)
+Lemma hosted_exemption_refuted :
+  c18_form_ok ex_connect_origin = true /\ hr_pauth ex_connect_origin = None /\
+  c18_http_loop_g c18_gate_hosted ex_hcfg [ex_connect_origin] (mkPre [] [])
+    = [HTcp [x3a; x38; x30]; HReply 200; HRelay []; HClose] /\
+  c18_http_loop ex_hcfg [ex_connect_origin] (mkPre [] []) = [HReply 407; HClose].
+Proof. vm_compute. repeat split; reflexivity. Qed.
+
+(* the forms at work on the code as it is (accepted credentials "bAsic dTpw"): *)
+Definition ex_good : option (list byte) := Some [x62; x41; x73; x69; x63; x20; x64; x54; x70; x77].
+Definition ex_get : list byte := [x47; x45; x54].
+Definition ex_hx : list byte := [x68; x2e; x78].                                       (* "h.x" *)
+(* GET http://h.x/ : absolute-form, dialled at h.x:80 *)
+Example http_ex_absolute :
+  c18_http_loop ex_hcfg [mkHReq ex_get (c18_s_http ++ [x3a; x2f; x2f] ++ ex_hx ++ [x2f]) FAbsolute c18_s_http ex_hx ex_hx
+                                ex_good false 204 FrNone] (mkPre [] [])
+  = [HAuth [x75] [x70] true; HTcp (ex_hx ++ [x3a; x38; x30]); HReply 204; HClose].
+Proof. vm_compute. reflexivity. Qed.
+(* GET / with Host: h.x : origin-form, 400 and no dial although the credentials were accepted *)
+Example http_ex_origin :
+  c18_http_loop ex_hcfg [mkHReq ex_get [x2f] FOrigin [] [] ex_hx ex_good true 204 FrNone] (mkPre [] [])
+  = [HAuth [x75] [x70] true; HReply 400; HClose].
+Proof. vm_compute. reflexivity. Qed.
+(* CONNECT [::1]:443 : authority-form with an IPv6 literal *)
+Example http_ex_v6 :
+  c18_connect_addr (mkHReq c18_s_connect [] FAuthority [] [x5b; x3a; x3a; x31; x5d; x3a; x34; x34; x33] [] None false 200 FrNone)
+  = [x5b; x3a; x3a; x31; x5d; x3a; x34; x34; x33].
 Proof. vm_compute. reflexivity. Qed.
